@@ -134,6 +134,10 @@ func composeBuilderForType(schemas ast.Schemas, builders ast.Builders, config Co
 		newBuilder.Name = config.ComposedBuilderName
 	}
 
+	if !sourceBuilder.For.Type.IsStruct() {
+		return nil, fmt.Errorf("source builder '%s' does not build a struct", sourceBuilder.Name)
+	}
+
 	typeField, ok := sourceBuilder.For.Type.AsStruct().FieldByName(config.PluginDiscriminatorField)
 	if !ok {
 		return nil, fmt.Errorf("could not find plugin discriminator field '%s' in builder", config.PluginDiscriminatorField)
